@@ -8,7 +8,7 @@ Open Scope Z_scope.
 
 (* every item gets exactly one outcome: the three counters add up to the number of items - every item sequence, limit, timeout *)
 Theorem C11_one_outcome_per_item :
-  forall limit tau its, let ds := run limit tau its in
+  forall limit tau errdelay its, let ds := run limit tau errdelay its in
     (count_out OOk ds + count_out OFailed ds + count_out OTimedOut ds = length its)%nat.
 Proof. exact one_outcome_per_item. Qed.
 Print Assumptions C11_one_outcome_per_item.
@@ -16,23 +16,23 @@ Print Assumptions C11_one_outcome_per_item.
 (* the outcome of an item depends on that item alone (a failed or timed-out item does not stop or alter later ones): it is timed
    out iff a timeout is configured and it takes longer, failed iff it fails within the timeout, succeeded otherwise *)
 Theorem C11_outcome_is_local :
-  forall limit tau its,
-    map iout (run limit tau its) =
+  forall limit tau errdelay its,
+    map iout (run limit tau errdelay its) =
     map (fun it => if (0 <? tau) && (tau <? dur it) then OTimedOut else if fails it then OFailed else OOk) its.
 Proof.
-  intros. rewrite outcome_is_local. apply map_ext. intros it. unfold eff. destruct ((0 <? tau) && (tau <? dur it)); reflexivity.
+  intros. rewrite outcome_is_local. apply map_ext. intros it. unfold eff. destruct ((0 <? tau) && (tau <? dur it)); [reflexivity|]. destruct (fails it); reflexivity.
 Qed.
 Print Assumptions C11_outcome_is_local.
 
 (* at no intake are more than `limit` item futures in progress *)
 Theorem C11_in_flight_never_exceeds_limit :
-  forall limit tau, (1 <= limit)%nat -> forall its,
+  forall limit tau errdelay, (1 <= limit)%nat -> forall its,
   Forall (fun k => (k <= limit)%nat)
-         ((fix go st its := match its with [] => [] | it :: r => let st' := fst (intake limit tau st it) in length (snd st') :: go st' r end) (0, []) its).
-Proof. intros limit tau H its. apply in_flight_never_exceeds_limit; [exact H|cbn; apply Nat.le_0_l]. Qed.
+         ((fix go st its := match its with [] => [] | it :: r => let st' := fst (intake limit tau errdelay st it) in length (snd st') :: go st' r end) (0, []) its).
+Proof. intros limit tau errdelay H its. apply in_flight_never_exceeds_limit; [exact H|cbn; apply Nat.le_0_l]. Qed.
 Print Assumptions C11_in_flight_never_exceeds_limit.
 
 Example C11_nonvacuous :
-  report 2 100 [{| dur := 200; fails := false |}; {| dur := 50; fails := false |}; {| dur := 30; fails := true |}; {| dur := 20; fails := false |}] 5
+  report 2 100 0 [{| dur := 200; fails := false |}; {| dur := 50; fails := false |}; {| dur := 30; fails := true |}; {| dur := 20; fails := false |}] 5
   = [2; 1; 1; 2; 4; 100].
 Proof. vm_compute. reflexivity. Qed.
